@@ -43,6 +43,8 @@ type boundedSpec struct {
 
 // bounded stand-ins per property (run on the real code, labelled bounded)
 var boundedRegistry = map[string][]boundedSpec{
+	"C18": {{Name: "Compact/Indent acceptance and output against encoding/json", Pkg: ".", Template: "json_compact_indent.go",
+		What: "stands in for the container grammar and byte-for-byte output of Compact/Indent, which no function contract states (indentValue family has a trusted contract)"}},
 	"C16": {{Name: "AppendInt/AppendUint exact output", Pkg: "internal/encoder", Template: "encoder_appendint.go",
 		What: "stands in for the [unverified] exact-output clauses of encoder.AppendInt / encoder.AppendUint"}},
 }
@@ -62,7 +64,10 @@ type checkReport struct {
 	t0         time.Time
 	nTrivial   int
 	boundedFail []string
+	boundedClasses []boundedClass
 }
+
+type boundedClass struct{ Obl, Detail string }
 
 func propsOfManifest() map[string]bool {
 	out := map[string]bool{}
@@ -175,10 +180,19 @@ func runBounded(rep *checkReport, seed int) {
 		out, ok := runOverlayTest(bs.Pkg, filepath.Join("/verif/bounded", bs.Template), "TestGovcBounded",
 			[]string{fmt.Sprintf("VERIF_SEED=%d", seed), "GOVC_TIER=" + rep.tier}, 600)
 		entry := map[string]interface{}{"name": bs.Name, "what": bs.What, "label": "bounded", "ok": ok}
+		var classes []string
 		for _, l := range strings.Split(out, "\n") {
 			if strings.HasPrefix(l, "BOUNDED-OK") || strings.HasPrefix(l, "BOUNDED-FAIL") {
 				entry["result"] = l
 			}
+			if strings.HasPrefix(l, "BOUNDED-CLASS ") {
+				classes = append(classes, strings.TrimPrefix(l, "BOUNDED-CLASS "))
+			}
+		}
+		entry["disagreement_classes"] = classes
+		for _, cl := range classes {
+			name := strings.Fields(cl)[0]
+			rep.boundedClasses = append(rep.boundedClasses, boundedClass{Obl: rep.prop + "/bounded/" + name, Detail: bs.Name + ": " + cl})
 		}
 		if _, has := entry["result"]; !has {
 			entry["result"] = firstLines(out, 5)
@@ -269,6 +283,19 @@ func finish(e *Engine, rep *checkReport, seed int) int {
 		os.WriteFile(path, data, 0o644)
 		fmt.Printf("VIOLATION property=%s replay=%s no-failing-input-found\n", rep.prop, path)
 		fmt.Println("   obligation generation failed (fail closed):", msg)
+		violations++
+	}
+	for _, bc := range rep.boundedClasses {
+		if k, ok := openKF[bc.Obl]; ok {
+			fmt.Printf("KNOWN-FINDING: property=%s %s [%s]\n", rep.prop, k.What, k.Obligation)
+			continue
+		}
+		os.MkdirAll(dir, 0o755)
+		path := filepath.Join(dir, slug(bc.Obl)+".json")
+		data, _ := json.MarshalIndent(map[string]interface{}{"property": rep.prop, "obligation": bc.Obl, "verdict": "bounded-disagreement", "detail": bc.Detail}, "", " ")
+		os.WriteFile(path, data, 0o644)
+		fmt.Printf("VIOLATION property=%s replay=%s\n", rep.prop, path)
+		fmt.Println("   bounded stand-in found a disagreement with encoding/json on the real code:", bc.Detail)
 		violations++
 	}
 	for _, msg := range rep.boundedFail {
